@@ -1,29 +1,40 @@
 """C18 -- shared const objects: frame conditions ("who may be written") of the const interface the library shares across
-threads.  See DESIGN.md C18 and the module docstring of frame.py for the method."""
+threads.  See DESIGN.md C18 and the module docstring of frame.py for the method.
+
+Two kinds of targets:
+  (1) SHARED, READ-ONLY: a function of the const interface of an object that several fold / trial / chunk tasks use at the
+      same time (solver, loss, dataset, iterators' cached parts, fitted weak learners) is put under a DFCC contract whose
+      assigns clause contains nothing of that object (and nothing of the objects it owns through pointers);
+  (2) WRITTEN BY DESIGN, DISJOINTLY: a task body writes only slot [tnum] of the per-thread buffers / accumulators, or only
+      rows [begin, end) of a per-sample tensor (stated at a ghost row), or only slot (trial, fold) of the tuning result.
+Everything about interleavings themselves (the pool's synchronisation, "two running tasks have different tnum") is C17's
+sequential protocol view and stays not_decided here.
+"""
 import astload
 from core import Fn, Target, VC
 import frame
 
-SOLVER_H = 'specs/C18/solver.h'
+
+def T(*a, **k):
+    return Target(*a, checks=frame.CHECKS, **k)
+
+
+def mg(*parts):
+    """select a definition by (parts of) its mangled name: coarse ast-dump filters keep the number of clang runs small"""
+    return lambda d: all(p in (d.get('mangledName') or '') for p in parts)
+
+
+def nparams(k):
+    return lambda d: len(astload.param_types(d)) == k
 
 
 CLONABLE = {f'{ns}clonable_t<nano::{c}>': None for ns in ('', 'nano::') for c in
             ('lsearch0_t', 'lsearchk_t', 'solver_t', 'function_t', 'loss_t', 'wlearner_t', 'generator_t', 'splitter_t', 'tuner_t', 'datasource_t')}
+
+# ------------------------------------------------------------------------------------------ solver
+SOLVER_H = 'specs/C18/solver.h'
+STU = 'src/solver.cpp'
 LS_PTR = [(r'^nano::lsearch0_t$', 'struct nv_ls0'), (r'^nano::lsearchk_t$', 'struct nv_lsk')]
-
-
-def solver_layout(types, tu='src/solver.cpp', solver_cls='nano::solver_t'):
-    """struct nv_solver is read from the class the target is about (solver_t, or the derived solver whose body is checked:
-    base-class fields first, so a member added anywhere in the hierarchy is part of the frame)"""
-    base = 'src/solver.cpp'
-    return frame.Layout([
-        dict(tu=base, cls='nano::lsearch0_t', cname='struct nv_ls0', bases=CLONABLE),
-        dict(tu=base, cls='nano::lsearchk_t', cname='struct nv_lsk', bases=CLONABLE),
-        dict(tu=base, cls='nano::lsearch_t', cname='struct nv_lsearch', bases=CLONABLE, ptr=LS_PTR),
-        dict(tu=base, cls='nano::function_t', cname='struct nv_function', bases=CLONABLE),
-        dict(tu=tu, cls=solver_cls, cname='struct nv_solver', bases=CLONABLE, ptr=LS_PTR)], types=types, base_tu=base)
-
-
 STYPES = [(r'^nano::solver_t$|^nano::solver_(gd|cgd|lbfgs|quasi)\w*_t$', 'struct nv_solver'), (r'^nano::lsearch_t$', 'struct nv_lsearch'),
           (r'^nano::function_t$', 'struct nv_function'),
           (r'^(nano::)?rlsearch0_t$|^std::unique_ptr<nano::lsearch0_t', 'struct nv_ls0*'),
@@ -34,8 +45,8 @@ STYPES = [(r'^nano::solver_t$|^nano::solver_(gd|cgd|lbfgs|quasi)\w*_t$', 'struct
           (r'std::tuple_element<0, (const )?std::tuple<bool, double>>::type', '_Bool'),
           (r'std::tuple_element<1, (const )?std::tuple<bool, double>>::type', 'double')]
 SOLVER_ERASED = frame.ERASED + [r'^(nano::)?solver_state_t$', r'^std::deque<', r'^std::vector<', r'__alloc_traits<.*::value_type$']
-SCALLS = [(r'^operator->\|', '{0}'), (r'^move\|', '{0}'), (r'^ctor\|nano::lsearch_t\|', 'nv_lsearch_make({&0}, {&1})'),
-          (r'^(fabs|abs|sqrt|exp|log)\|', 'nv_pure1({0})'), (r'^(max|min|pow)\|', 'nv_pure2({0}, {1})'), (r'^clamp\|', 'nv_pure3({0}, {1}, {2})')]
+PURE = [(r'^(fabs|abs|sqrt|exp|log)\|', 'nv_pure1({0})'), (r'^(max|min|pow)\|', 'nv_pure2({0}, {1})'), (r'^clamp\|', 'nv_pure3({0}, {1}, {2})')]
+SCALLS = [(r'^operator->\|', '{0}'), (r'^move\|', '{0}'), (r'^ctor\|nano::lsearch_t\|', 'nv_lsearch_make({&0}, {&1})')] + PURE
 SMEMBERS = [(r'^clone\|.*lsearch0_t', 'nv_ls0_clone'), (r'^clone\|.*lsearchk_t', 'nv_lsk_clone'),
             (r'^size\|nano::function_t', '{self}->m_size'), (r'^fcalls\|nano::function_t', '{self}->m_fcalls'),
             (r'^gcalls\|nano::function_t', '{self}->m_gcalls'), (r'^clear_statistics\|nano::function_t', 'function_clear_statistics'),
@@ -43,11 +54,27 @@ SMEMBERS = [(r'^clone\|.*lsearch0_t', 'nv_ls0_clone'), (r'^clone\|.*lsearchk_t',
             (r'^make_lsearch\|', 'solver_make_lsearch'), (r'^get\|nano::lsearch_t', 'lsearch_get'),
             (r'^get\|.*lsearch0_t', 'nv_ls0_get({self}, {&0}, {&1}, {2})'), (r'^get\|.*lsearchk_t', 'nv_lsk_get({self}, {&0}, {&1}, {2}, {&3})'),
             (r'^do_minimize\|', 'nv_do_minimize'), (r'^beta\|', 'nv_cgd_beta'), (r'^update\|nano::solver_quasi_t', 'nv_quasi_update')]
-
-BODIES = [('gd_do_minimize', 'src/solver/gd.cpp', 'solver_gd_t'), ('cgd_do_minimize', 'src/solver/cgd.cpp', 'solver_cgd_t'),
-          ('lbfgs_do_minimize', 'src/solver/lbfgs.cpp', 'solver_lbfgs_t'), ('quasi_do_minimize', 'src/solver/quasi.cpp', 'solver_quasi_t')]
+# (c name, TU, ast-dump filter, class of the body, base classes that live in that TU)
+BODIES = [('gd_do_minimize', 'src/solver/gd.cpp', 'nano::solver_gd_t', 'nano::solver_gd_t', ()),
+          ('cgd_do_minimize', 'src/solver/cgd.cpp', 'nano::solver_cgd_', 'nano::solver_cgd_t', ()),
+          ('lbfgs_do_minimize', 'src/solver/lbfgs.cpp', 'nano::solver_lbfgs_t', 'nano::solver_lbfgs_t', ()),
+          ('quasi_do_minimize', 'src/solver/quasi.cpp', 'nano::solver_quasi_', 'nano::solver_quasi_t', ())]
 CGD_BETAS = ['hs', 'fr', 'pr', 'cd', 'ls', 'dy', 'n', 'dycd', 'dyhs', 'frpr']
 QUASI_UPDATES = ['sr1', 'dfp', 'bfgs', 'hoshino', 'fletcher']
+
+
+def solver_layout(tu=STU, flt='nano::solver_t', solver_cls='nano::solver_t', local_bases=()):
+    """struct nv_solver is read from the class the target is about (solver_t, or the derived solver whose body is checked:
+    base-class fields first, so a member added anywhere in the hierarchy is part of the frame)"""
+    bases = dict(CLONABLE)
+    for b in local_bases:
+        bases[b] = (tu, flt)
+    return frame.Layout([
+        dict(tu=STU, cls='nano::lsearch0_t', flt='nano::lsearch', cname='struct nv_ls0', bases=bases),
+        dict(tu=STU, cls='nano::lsearchk_t', flt='nano::lsearch', cname='struct nv_lsk', bases=bases),
+        dict(tu=STU, cls='nano::lsearch_t', flt='nano::lsearch', cname='struct nv_lsearch', bases=bases, ptr=LS_PTR),
+        dict(tu=STU, cls='nano::function_t', cname='struct nv_function', bases=bases),
+        dict(tu=tu, cls=solver_cls, flt=flt, cname='struct nv_solver', bases=bases, ptr=LS_PTR)], types=STYPES, base_tu=STU).text
 
 
 def solver_targets():
@@ -55,36 +82,124 @@ def solver_targets():
         track = frame.make_track(lvalue_hooks=[frame.param_ref_hook()])
         return dict(types=STYPES, opaque=SOLVER_ERASED, hooks=[frame.param_ref_hook()], stmt_hooks=[track.stmt_hook], uf_float=False,
                     calls=SCALLS, members=SMEMBERS, aggregates=['struct nv_tuple_b_f64'])
-    ctor = lambda: Fn('lsearch_ctor', 'src/solver/lsearch.cpp', 'lsearch_t', flt='nano::lsearch_t::lsearch_t', kinds=('CXXConstructorDecl',),
-                      self_struct='struct nv_lsearch', **common())
-    mk = lambda: Fn('solver_make_lsearch', 'src/solver.cpp', 'make_lsearch', flt='nano::solver_t::make_lsearch', self_struct='struct nv_solver', **common())
-    done = lambda: Fn('solver_done', 'src/solver.cpp', 'done', flt='nano::solver_t::done', self_struct='struct nv_solver', **common())
-    lsget = lambda: Fn('lsearch_get', 'src/solver/lsearch.cpp', 'get', flt='nano::lsearch_t::get', self_struct='struct nv_lsearch', **common())
+    LTU = 'src/solver/lsearch.cpp'
+    ctor = lambda: Fn('lsearch_ctor', LTU, 'lsearch_t', flt='nano::lsearch_t', kinds=('CXXConstructorDecl',), self_struct='struct nv_lsearch', **common())
+    lsget = lambda: Fn('lsearch_get', LTU, 'get', flt='nano::lsearch_t', self_struct='struct nv_lsearch', **common())
+    mk = lambda: Fn('solver_make_lsearch', STU, 'make_lsearch', flt='nano::solver_t', self_struct='struct nv_solver', **common())
+    done = lambda: Fn('solver_done', STU, 'done', flt='nano::solver_t', self_struct='struct nv_solver', **common())
     clr = lambda: Fn('function_clear_statistics', 'src/function.cpp', 'clear_statistics', flt='nano::function_t::clear_statistics',
                      self_struct='struct nv_function', **common())
-    mini = Fn('solver_minimize', 'src/solver.cpp', 'minimize', flt='nano::solver_t::minimize', self_struct='struct nv_solver', **common())
-    pre = solver_layout(STYPES).text
-    T = lambda *a, **k: Target(*a, checks=frame.CHECKS, **k)
+    mini = Fn('solver_minimize', STU, 'minimize', flt='nano::solver_t', self_struct='struct nv_solver', **common())
+    pre = solver_layout()
     ts = [T('solver_make_lsearch', [mk(), ctor()], SOLVER_H, pre=pre),
           T('lsearch_ctor', [ctor()], SOLVER_H, pre=pre),
           T('lsearch_get', [lsget()], SOLVER_H, pre=pre),
           T('solver_done', [done()], SOLVER_H, pre=pre),
           T('function_clear_statistics', [clr()], SOLVER_H, pre=pre),
           T('solver_minimize', [mini, clr()], SOLVER_H, pre=pre, replace=['nv_do_minimize'])]
-    for cname, tu, cls in BODIES:
-        body = Fn(cname, tu, 'do_minimize', flt=f'nano::{cls}::do_minimize', self_struct='struct nv_solver', **common())
-        ts.append(T(cname, [body, done(), mk(), ctor(), lsget()], SOLVER_H, pre=solver_layout(STYPES, tu, f'nano::{cls}').text,
-                         replace=['nv_cgd_beta', 'nv_quasi_update'], enums=[(tu, 'nano::quasi_initialization')] if 'quasi' in cname else []))
+    for cname, tu, flt, cls, lb in BODIES:
+        body = Fn(cname, tu, 'do_minimize', flt=flt, self_struct='struct nv_solver', **common())
+        ts.append(T(cname, [body, done(), mk(), ctor(), lsget()], SOLVER_H, pre=solver_layout(tu, flt, cls, lb),
+                    replace=['nv_cgd_beta', 'nv_quasi_update'], enums=[(tu, 'nano::quasi_initialization')] if 'quasi' in cname else []))
     # virtual const helpers used by contract in the bodies above: every implementation against the same frame
     for k in CGD_BETAS:
-        f = Fn(f'cgd_beta_{k}', 'src/solver/cgd.cpp', 'beta', flt=f'nano::solver_cgd_{k}_t::beta', self_struct='struct nv_solver', **common())
-        ts.append(T(f'cgd_beta_{k}', [f], SOLVER_H, pre=solver_layout(STYPES, 'src/solver/cgd.cpp', f'nano::solver_cgd_{k}_t').text))
+        f = Fn(f'cgd_beta_{k}', 'src/solver/cgd.cpp', 'beta', flt='nano::solver_cgd_', select=mg(f'solver_cgd_{k}_t4beta'), self_struct='struct nv_solver', **common())
+        ts.append(T(f'cgd_beta_{k}', [f], SOLVER_H,
+                    pre=solver_layout('src/solver/cgd.cpp', 'nano::solver_cgd_', f'nano::solver_cgd_{k}_t', ('nano::solver_cgd_t',))))
     for k in QUASI_UPDATES:
-        f = Fn(f'quasi_update_{k}', 'src/solver/quasi.cpp', 'update', flt=f'nano::solver_quasi_{k}_t::update', self_struct='struct nv_solver', **common())
-        ts.append(T(f'quasi_update_{k}', [f], SOLVER_H, pre=solver_layout(STYPES, 'src/solver/quasi.cpp', f'nano::solver_quasi_{k}_t').text))
+        f = Fn(f'quasi_update_{k}', 'src/solver/quasi.cpp', 'update', flt='nano::solver_quasi_', select=mg(f'solver_quasi_{k}_t6update'), self_struct='struct nv_solver', **common())
+        ts.append(T(f'quasi_update_{k}', [f], SOLVER_H,
+                    pre=solver_layout('src/solver/quasi.cpp', 'nano::solver_quasi_', f'nano::solver_quasi_{k}_t', ('nano::solver_quasi_t',))))
+    return ts
+
+
+# ------------------------------------------------------------------------------------------ dataset iterators
+ITU = 'src/dataset/iterator.cpp'
+IFLT = 'iterator_t'
+DS_H = 'specs/C18/dataset2.h'
+DTYPES = [(r'^nano::dataset_t$', 'struct nv_dataset'), (r'^nano::targets_iterator_t$', 'struct nv_titer'),
+          (r'^nano::flatten_iterator_t$', 'struct nv_fiter'), (r'^nano::select_iterator_t$', 'struct nv_siter'),
+          (r'^nano::select_iterator_t::buffer_t$|^buffer_t$', 'struct nv_selbuf'),
+          (r'^std::vector<nano::tensor_t<nano::tensor_vector_storage_t, double, \d', 'struct nv_slots'),
+          (r'^std::vector<nano::select_iterator_t::buffer_t', 'struct nv_selbufs'),
+          (r'^std::vector<std::unique_ptr<nano::generator_t', 'struct nv_gens'),
+          (r'^std::unique_ptr<nano::generator_t|^(nano::)?rgenerator_t$', 'struct nv_generator*'), (r'^nano::generator_t$', 'struct nv_generator'),
+          (r'^std::function<|_callback_t$', 'struct nv_cb'), (r'^nano::parallel::pool_t$', 'struct nv_pool'),
+          (r'^nano::datasource_t$', 'struct nv_datasource')]
+DPTR = [(r'^nano::dataset_t$', 'struct nv_dataset'), (r'^nano::datasource_t$', 'struct nv_datasource'),
+        (r'^nano::parallel::pool_t$', 'struct nv_pool'), (r'^nano::generator_t$', 'struct nv_generator')]
+
+
+def dataset_layout(tu=ITU, iterators=True):
+    cl = [dict(tu=tu, cls='nano::generator_t', cname='struct nv_generator', bases=CLONABLE, ptr=DPTR),
+          dict(tu=tu, cls='nano::dataset_t', cname='struct nv_dataset', bases=CLONABLE, ptr=DPTR)]
+    if iterators:
+        cl += [dict(tu=tu, cls='nano::select_iterator_t::buffer_t', cname='struct nv_selbuf', flt=IFLT, bases=CLONABLE, ptr=DPTR),
+               dict(tu=tu, cls='nano::targets_iterator_t', cname='struct nv_titer', flt=IFLT, bases=CLONABLE, ptr=DPTR),
+               dict(tu=tu, cls='nano::flatten_iterator_t', cname='struct nv_fiter', flt=IFLT, bases=CLONABLE, ptr=DPTR),
+               dict(tu=tu, cls='nano::select_iterator_t', cname='struct nv_siter', flt=IFLT, bases=CLONABLE, ptr=DPTR)]
+    bases = dict(CLONABLE)
+    bases.update({'nano::base_dataset_iterator_t': IFLT, 'nano::targets_iterator_t': IFLT})
+    for c in cl:
+        c['bases'] = bases
+    lay = frame.Layout(cl, types=DTYPES, base_tu=tu)
+
+    def pre():
+        text, info = lay.text()
+        return f'#include "{astload.VERIF}/specs/C18/dataset.h"\n' + text, info
+    return pre
+
+
+ICALLS = [(r'^operator\[\]\|.*\|std::vector<nano::tensor_t<', '(*nv_slot_at({&0}, {1}))'),
+          (r'^operator\[\]\|.*\|std::vector<nano::select_iterator_t::buffer_t', '(*nv_selbuf_at({&0}, {1}))'),
+          (r'^operator\(\)\|.*\|(const )?std::function<.*#4$', 'nv_callback3({&0}, {1}, {2}, {3})'),
+          (r'^operator\(\)\|.*\|(const )?std::function<.*#5$', 'nv_callback4({&0}, {1}, {2}, {3}, {4})')]
+IMEMBERS = [(r'^dataset\|nano::base_dataset_iterator_t', '(*{self}->m_dataset)'),
+            (r'^targets\|nano::dataset_t', 'nv_dataset_targets({self}, {0}, {&1})'),
+            (r'^flatten\|nano::dataset_t', 'nv_dataset_flatten({self}, {0}, {&1})'),
+            (r'^select\|nano::dataset_t', 'nv_dataset_select({self}, {0}, {1}, {&2})'),
+            (r'^targets\|nano::targets_iterator_t \*\|#1', 'titer_targets_map((struct nv_titer*){self}, {0})'),
+            (r'^targets\|nano::targets_iterator_t \*\|#2', 'titer_targets((struct nv_titer*){self}, {0}, {&1})'),
+            (r'^flatten\|nano::flatten_iterator_t \*\|#1', 'fiter_flatten_map({self}, {0})'),
+            (r'^flatten\|nano::flatten_iterator_t \*\|#2', 'fiter_flatten({self}, {0}, {&1})'),
+            (r'^samples\|nano::targets_iterator_t \*', '{self}->m_samples'),
+            (r'^scaling\|nano::targets_iterator_t \*', '{self}->m_scaling')]
+SELECT_KINDS = ['sclass', 'mclass', 'scalar', 'struct']
+
+
+def iterator_targets():
+    pre = dataset_layout()
+
+    def common(self_struct):
+        track = frame.make_track()
+        return dict(types=DTYPES, opaque=frame.ERASED, stmt_hooks=[track.stmt_hook], uf_float=False, self_struct=self_struct,
+                    calls=ICALLS, members=IMEMBERS)
+    tmap = lambda: Fn('titer_targets_map', ITU, 'targets', flt=IFLT, select=lambda d: mg('targets_iterator_t7targets')(d) and nparams(1)(d), **common('struct nv_titer'))
+    tget = lambda: Fn('titer_targets', ITU, 'targets', flt=IFLT, select=lambda d: mg('targets_iterator_t7targets')(d) and nparams(2)(d), **common('struct nv_titer'))
+    fmap = lambda: Fn('fiter_flatten_map', ITU, 'flatten', flt=IFLT, select=lambda d: mg('flatten_iterator_t7flatten')(d) and nparams(1)(d), **common('struct nv_fiter'))
+    fget = lambda: Fn('fiter_flatten', ITU, 'flatten', flt=IFLT, select=lambda d: mg('flatten_iterator_t7flatten')(d) and nparams(2)(d), **common('struct nv_fiter'))
+    ts = [T('titer_targets', [tget(), tmap()], DS_H, pre=pre), T('titer_targets_map', [tmap()], DS_H, pre=pre),
+          T('fiter_flatten', [fget(), fmap()], DS_H, pre=pre), T('fiter_flatten_map', [fmap()], DS_H, pre=pre)]
+    loops = [('fiter_loop_ft_task', lambda d: mg('flatten_iterator_t4loop')(d) and 'flatten_targets_callback_t' in astload.param_types(d)[0], 'struct nv_fiter'),
+             ('fiter_loop_f_task', lambda d: mg('flatten_iterator_t4loop')(d) and 'flatten_callback_t' in astload.param_types(d)[0], 'struct nv_fiter'),
+             ('titer_loop_task', mg('targets_iterator_t4loop'), 'struct nv_titer')]
+    for cname, sel, st in loops:
+        task = Fn(cname, ITU, 'loop', flt=IFLT, select=sel, lambda_index=0, captures=True, **common(st))
+        ts.append(T(cname, [task, tget(), tmap()] + ([fget(), fmap()] if 'fiter' in cname else []), DS_H, pre=pre))
+    # select_iterator_t: loop(samples, features, callback) chunk tasks and loop(samples, ifeature, callback) (tnum = 0 on the
+    # caller's own iterator)
+    for kind in SELECT_KINDS:
+        cb = f'{kind}_callback_t'
+        par = lambda d, cb=cb: mg('select_iterator_t4loop')(d) and len(astload.param_types(d)) == 3 and cb in astload.param_types(d)[2] \
+            and 'indices_cmap_t' in astload.param_types(d)[1]
+        one = lambda d, cb=cb: mg('select_iterator_t4loop')(d) and len(astload.param_types(d)) == 3 and cb in astload.param_types(d)[2] \
+            and 'tensor_size_t' in astload.param_types(d)[1]
+        task = Fn(f'siter_loop_{kind}_task', ITU, 'loop', flt=IFLT, select=par, lambda_index=0, captures=True, **common('struct nv_siter'))
+        single = Fn(f'siter_loop1_{kind}', ITU, 'loop', flt=IFLT, select=one, **common('struct nv_siter'))
+        ts += [T(f'siter_loop_{kind}_task', [task], DS_H, pre=pre), T(f'siter_loop1_{kind}', [single], DS_H, pre=pre)]
     return ts
 
 
 def build(tier):
-    targets = solver_targets()
+    targets = solver_targets() + iterator_targets()
     return {'targets': targets, 'vcs': [], 'decided': [], 'not_decided': [], 'assumptions': [], 'trusted': []}
